@@ -20,7 +20,7 @@ from . import core
 from .core import Collector, HarnessError, Log, Streams, derive, minimise
 from .worlds import get_world
 
-MAX_VIOLATIONS_PER_BLOCK = 2
+MAX_VIOLATIONS_PER_BLOCK = 1
 
 
 def run_one(world, prop, seed, index, tier):
@@ -82,9 +82,12 @@ def main(argv=None):
     samples = []
     harness_errors = []
     nruns = 0
+    stop_file = os.path.join(a.out, f"STOP-{prop}-{a.seed}") if a.out else None
     for index in range(a.first, a.first + a.runs):
         if a.wall and time.time() - t0 > a.wall:
             break
+        if stop_file and os.path.exists(stop_file):
+            break  # enough violations have been recorded by other blocks: the verdict is settled
         faulthandler.dump_traceback_later(300, exit=True)
         try:
             case, col, log, v = run_one(world, prop, a.seed, index, a.tier)
@@ -133,6 +136,11 @@ def main(argv=None):
                 rec = {k: rec[k] for k in rec if k != "case"}
                 rec["path"] = path
             violations.append(rec)
+            if stop_file and not a.digests:
+                # two confirmed violations anywhere in the batch settle the verdict
+                n = len([f for f in os.listdir(a.out) if f.startswith(f"{prop}-{a.seed}-")])
+                if n >= 3:
+                    open(stop_file, "w").close()
     out = {
         "prop": prop, "first": a.first, "runs": nruns, "wall_s": round(time.time() - t0, 3),
         "block_digest": block_hash.hexdigest()[:24], "collector": total.to_json(),
